@@ -35,6 +35,13 @@ func check(tr []lab.Event) (viol []string, deliveries int) { return checkTrace(t
 func checkTrace(tr []lab.Event, liveTrace bool) (viol []string, deliveries int) {
 	lastDeliv, pending, lastAfter := 0, 0, 0
 	curStep := -1
+	// exactly once, the "nothing is lost" half: the expected number may pass n only while a message numbered n
+	// is being handled (the frame of this step, or one received early and kept) or through a gap fill /
+	// sequence reset / reset. If it passes n otherwise and an application message numbered n arrives
+	// afterwards, that message can never be delivered.
+	curIn, curInKnown := 0, false
+	received := map[int]bool{}
+	unjustified := map[int]string{}
 	endStep := func() {
 		if pending != 0 {
 			viol = append(viol, fmt.Sprintf("not-consumed: step ended with FromApp(%d) delivered but the expected number not advanced", pending))
@@ -47,6 +54,19 @@ func checkTrace(tr []lab.Event, liveTrace bool) (viol []string, deliveries int) 
 			curStep = e.Step
 		}
 		switch e.Kind {
+		case "step":
+			curIn, curInKnown = 0, false
+		case "in":
+			curIn, curInKnown = e.Seq, e.Seq > 0
+			if t, _ := e.Fields.Get(35); e.Seq > 0 && !fixwire.IsAdminMsgType(t) {
+				if why, bad := unjustified[e.Seq]; bad {
+					viol = append(viol, fmt.Sprintf("lost-behind-unjustified-advance: application message %d arrives but can never be delivered: %s", e.Seq, why))
+					delete(unjustified, e.Seq)
+				}
+			}
+			if e.Seq > 0 {
+				received[e.Seq] = true
+			}
 		case "FromApp":
 			deliveries++
 			if pending != 0 {
@@ -63,6 +83,7 @@ func checkTrace(tr []lab.Event, liveTrace bool) (viol []string, deliveries int) 
 			switch e.StoreOp {
 			case "Reset":
 				lastDeliv, pending, lastAfter = 0, 0, 0
+				received, unjustified = map[int]bool{}, map[int]string{}
 			case "Refresh":
 				lastAfter = 0
 			case "IncrTarget", "SetTarget":
@@ -82,6 +103,9 @@ func checkTrace(tr []lab.Event, liveTrace bool) (viol []string, deliveries int) 
 				}
 				if e.After < e.Before {
 					viol = append(viol, fmt.Sprintf("moved-backwards: next expected number %d->%d via %s without a reset", e.Before, e.After, e.StoreOp))
+				}
+				if !liveTrace && e.StoreOp == "IncrTarget" && e.After == e.Before+1 && curInKnown && curIn != e.Before && !received[e.Before] {
+					unjustified[e.Before] = fmt.Sprintf("the expected number went %d->%d while the frame being handled was numbered %d and no message numbered %d had been received", e.Before, e.After, curIn, e.Before)
 				}
 				if e.StoreOp == "IncrTarget" && e.After != e.Before+1 {
 					viol = append(viol, fmt.Sprintf("wrong-advance: increment moved the expected number %d->%d", e.Before, e.After))
@@ -167,7 +191,7 @@ func event(l *lab.Lab, p *lab.Peer, r *rand.Rand, kind string, rel int, pd strin
 	case "resendreq":
 		l.In(fmt.Sprintf("ResendRequest seq=%d (expected %d)", seq, exp), p.Msg("2", seq, hdr, fixwire.Fields{lab.F(7, "1"), lab.F(16, "0")}))
 	case "gapfill", "seqreset":
-		ns := exp + core.Pick(r, -2, 0, 1, 3, 5)
+		ns := exp + core.Pick(r, -5, -3, -2, -1, 0, 1, 3, 5)
 		if ns < 1 {
 			ns = 1
 		}
@@ -290,6 +314,9 @@ func history(c *core.Ctx, r *core.Result, stream string, i int, rng *rand.Rand, 
 				kind = "app"
 			}
 			rel := core.Pick(rng, 0, 0, 0, 0, 0, 1, 2, 4, -1, -2)
+			if kind == "seqreset" && rng.Intn(2) == 0 {
+				rel = core.Pick(rng, -6, -4, -3, -2, 3, 6) // Reset mode ignores the message's own number
+			}
 			pd := core.Pick(rng, "", "", "", "Y+orig", "Y", "N", "Y+laterorig")
 			if rel >= 0 && rng.Intn(2) == 0 {
 				pd = ""
